@@ -509,6 +509,25 @@ def e10d(ctx):
             n += 1
             v = kwarg(c, "explode_edits", pos if is_ctor else (pos if nm.startswith("super") or isinstance(c.func.value, ast.Call) else pos + 1))
             eff = v if v is not None else default
+            # which __init__ does a super() call reach?  If a class between this one and EditCollection defines its own, the value
+            # arrives only if that constructor hands it on (EditSequence accepts explode_edits and drops it)
+            if is_super and isinstance(eff, ast.Constant) and eff.value is False:
+                mro = m.c3(f.cls)
+                for k_ in mro[1:]:
+                    if k_ == ecq:
+                        break
+                    mid = m.attrs.get(k_, {}).get("__init__")
+                    if mid and mid[0] == "def":
+                        kwname = mid[1].node.args.kwarg.arg if mid[1].node.args.kwarg else None
+                        named = "explode_edits" in func_params(mid[1].node)
+                        fwd = any(isinstance(c2, ast.Call) and isinstance(c2.func, ast.Attribute) and c2.func.attr == "__init__"
+                                  and (any(k2.arg == "explode_edits" and dotted(k2.value) == "explode_edits" for k2 in c2.keywords)
+                                       or (not named and kwname and any(k2.arg is None and dotted(k2.value) == kwname for k2 in c2.keywords)))
+                                  for c2 in walk_no_nested(mid[1].node))
+                        if not fwd:
+                            eff = ast.Name(id=f"<dropped by {k_.rsplit('.', 1)[-1]}.__init__>", ctx=ast.Load())
+                            v = eff
+                            break
             if isinstance(eff, ast.Constant) and eff.value is False:
                 ctx.proved("E10d", f.file, f.short, c, f"{f.short}: explode_edits", "explode_edits=False")
             else:
